@@ -467,6 +467,14 @@ func (f *Frame) applyContract(callee *ssa.Function, ct *FuncContract, args []Val
 		ctx.havocLvalue(m, h, reach, pos, true)
 	}
 	res := f.freshVal(f.prefix+"res "+callee.Name(), rt, h)
+	// ghost variables of the callee's loops that its postcondition mentions are existentially
+	// quantified for the caller: fresh constants
+	for _, n := range sortedKeysInt(ct.LoopGhost) {
+		for _, g := range ct.LoopGhost[n] {
+			gt, srt := ctx.resolveType(g.Sort)
+			ctx.binds[g.Name] = Val{S: srt, E: vc.fresh(f.prefix+"ghost "+callee.Name()+"."+g.Name, srt), T: gt}
+		}
+	}
 	post := &SpecCtx{f: f, fn: callee, params: args, heap: h, old: entry, binds: ctx.binds, result: &res, pkg: ctx.pkg}
 	for _, en := range f.en.activeClauses(ct.Ensures, ct) {
 		vc.assume(implies(reach, post.evalBool(en.E)))
@@ -530,4 +538,13 @@ func (f *Frame) ctProps() []string {
 		return r.ct.Props
 	}
 	return f.props
+}
+
+func sortedKeysInt[V any](m map[int]V) []int {
+	ks := make([]int, 0, len(m))
+	for k := range m {
+		ks = append(ks, k)
+	}
+	sort.Ints(ks)
+	return ks
 }
